@@ -154,28 +154,44 @@ func rtpPacket(seq uint16, idx int) *rtp.Packet {
 // feed writes one RTP packet into every stream registered under a watched path
 func (w *world) feed() {
 	w.seq++
-	for i, p := range w.watch {
-		if s := media.Get(p); s != nil {
-			s.WriteRtpPacket(rtpPacket(w.seq, i+1))
+	_, infos := media.Infos("", 1000, false)
+	for _, inf := range infos {
+		idx := 0
+		for i, p := range w.watch {
+			if p == inf.Path {
+				idx = i + 1
+			}
+		}
+		if s := media.Get(inf.Path); s != nil {
+			s.WriteRtpPacket(rtpPacket(w.seq, idx))
 		}
 	}
 }
 
 // primeHLS pushes key frames with synthetic time stamps until the playlist is servable
-func primeHLS(s *media.Stream) bool {
+// srcMarker: every stream's frames carry the position of its path in the watch list, so that FLV tags and HLS
+// segments tell whose media they are
+func srcMarker(idx int) []byte { return append([]byte("C11SRC"), byte('A'+idx)) }
+
+func primeHLS(s *media.Stream, idx int) bool {
 	h := s.Hlsable()
 	if h == nil {
 		return false
 	}
-	idr := []byte{0x65, 0x88, 0x84, 0x00, 0x33, 0xff, 0xfe, 0xf6, 0xf0, 0x12, 0x34, 0x56}
+	idr := append([]byte{0x65, 0x88, 0x84, 0x00, 0x33, 0xff, 0xfe, 0xf6, 0xf0}, srcMarker(idx)...)
 	for i := 0; i < 9; i++ {
 		t := int64(i) * 6 * int64(time.Second)
 		s.WriteFrame(&codec.Frame{MediaType: codec.MediaTypeVideo, Dts: t, Pts: t, Payload: idr})
 	}
 	stop := time.Now().Add(2 * time.Second)
 	for time.Now().Before(stop) {
-		if _, err := h.M3u8(""); err == nil {
-			return true
+		if body, err := h.M3u8(""); err == nil {
+			// the model knows which sequence numbers a primed playlist lists: 2, 3, 4
+			// (the muxer works through the nine frames asynchronously: wait for its final state)
+			m := segLine.FindAllStringSubmatch(string(body), -1)
+			if len(m) == 3 && m[0][1] == "2" && m[1][1] == "3" && m[2][1] == "4" {
+				return true
+			}
 		}
 		time.Sleep(200 * time.Microsecond)
 	}
@@ -701,7 +717,13 @@ func runCase(c Val) Val {
 		if media.Get(path) != s {
 			return L(S("!setup"), S("stream not registered at "+path))
 		}
-		if !primeHLS(s) {
+		idx := 0
+		for i, q := range env.At(2).List() {
+			if q.Str() == path {
+				idx = i + 1
+			}
+		}
+		if !primeHLS(s, idx) {
 			return L(S("!setup"), S("no playlist for "+path))
 		}
 		w.ext[path] = s
@@ -904,6 +926,16 @@ func runCase(c Val) Val {
 			o = w.httpGet(u, kind, hdrsOf(e.At(5)))
 		case 11: // API
 			o = w.api(e)
+		case 12: // GET of an arbitrary URL path under /streams/ : ( status, something served, whose, what kind )
+			if lu := strings.ToLower(e.At(1).Str()); strings.HasSuffix(lu, ".m3u8") && strings.HasPrefix(lu, "/streams/") {
+				sp := lu[len("/streams") : len(lu)-len(".m3u8")]
+				if s := media.Get(sp); s != nil && s != w.ext[utils.CanonicalPath(sp)] {
+					o = L(S("!skipped"), S("playlist of a stream published a moment ago: GetM3u8 waits 22 s"))
+					break
+				}
+			}
+			status, kind, src := w.httpFetch(w.url(e.At(1).Str(), w.token(e.At(2))), hdrsOf(e.At(3)))
+			o = L(I(int64(status)), Bo(kind != 0), I(src), I(kind))
 		default:
 			o = L(S("!badcase"))
 		}
@@ -913,23 +945,39 @@ func runCase(c Val) Val {
 }
 
 // bigFrame: an IDR picture large enough to push the FLV response through net/http's 4 KiB write buffer
-var bigFrame = append([]byte{0x65, 0x88, 0x84, 0x00}, bytes.Repeat([]byte{0x5a}, 6000)...)
+func bigFrame(idx int) []byte {
+	f := append([]byte{0x65, 0x88, 0x84, 0x00}, srcMarker(idx)...)
+	return append(f, bytes.Repeat([]byte{0x5a}, 6000)...)
+}
 
 func (w *world) feedFrames() {
 	w.fts += int64(40 * time.Millisecond)
-	for _, p := range w.watch {
-		if s := media.Get(p); s != nil {
-			s.WriteFrame(&codec.Frame{MediaType: codec.MediaTypeVideo, Dts: w.fts, Pts: w.fts, Payload: bigFrame})
+	// every registered stream, also one a session published under a path nobody watches (marker 0)
+	_, infos := media.Infos("", 1000, false)
+	for _, inf := range infos {
+		idx := 0
+		for i, p := range w.watch {
+			if p == inf.Path {
+				idx = i + 1
+			}
+		}
+		if s := media.Get(inf.Path); s != nil {
+			s.WriteFrame(&codec.Frame{MediaType: codec.MediaTypeVideo, Dts: w.fts, Pts: w.fts, Payload: bigFrame(idx)})
 		}
 	}
 }
 
 var segLine = regexp.MustCompile(`/(\d+)\.ts`)
 
-func (w *world) httpGet(u string, kind int64, hdr http.Header) Val {
+// httpFetch performs the GET and looks at what came back: the status, what kind of thing the body is
+// (1 FLV, 2 playlist, 3 transport stream; 0 nothing) and whose it is (position of the stream in the watch list,
+// from the marker in FLV tags / segments or from the segment URIs of a playlist; 0 unknown)
+func (w *world) httpFetch(u string, hdr http.Header) (status int, kind int64, src int64) {
 	type result struct {
-		resp *http.Response
-		err  error
+		status int
+		kind   int64
+		body   []byte
+		err    error
 	}
 	ch := make(chan result, 1)
 	go func() {
@@ -938,48 +986,79 @@ func (w *world) httpGet(u string, kind int64, hdr http.Header) Val {
 			req.Header[k] = vs
 		}
 		resp, err := httpClient.Do(req)
-		ch <- result{resp, err}
+		if err != nil {
+			ch <- result{err: err}
+			return
+		}
+		defer resp.Body.Close()
+		r := result{status: resp.StatusCode}
+		if resp.StatusCode == 200 {
+			head := make([]byte, 7)
+			n, _ := io.ReadFull(resp.Body, head[:3])
+			if n == 3 && string(head[:3]) == "FLV" {
+				// an endless body: read until the first tag that names its stream has passed
+				r.kind = 1
+				buf := make([]byte, 0, 1<<16)
+				chunk := make([]byte, 4096)
+				for len(buf) < 1<<19 {
+					if i := bytes.Index(buf, []byte("C11SRC")); i >= 0 && i+6 < len(buf) {
+						break
+					}
+					m, err := resp.Body.Read(chunk)
+					buf = append(buf, chunk[:m]...)
+					if err != nil {
+						break
+					}
+				}
+				r.body = buf
+			} else {
+				rest, _ := ioutil.ReadAll(io.LimitReader(resp.Body, 1<<21))
+				r.body = append(head[:n], rest...)
+				if bytes.HasPrefix(r.body, []byte("#EXTM3U")) {
+					r.kind = 2
+				} else if len(r.body) > 0 && r.body[0] == 0x47 {
+					r.kind = 3
+				}
+			}
+		}
+		ch <- r
 	}()
 	var r result
 	got := false
-	for i := 0; i < 3000 && !got; i++ {
+	for i := 0; i < 4000 && !got; i++ {
 		select {
 		case r = <-ch:
 			got = true
 		case <-time.After(time.Millisecond):
-			if kind == 0 {
-				w.feedFrames() // FLV: the response head leaves the server with the first tags
-			}
+			w.feedFrames() // FLV: the response head leaves the server with the first tags
 		}
 	}
 	if !got {
 		r = <-ch
 	}
 	if r.err != nil {
-		return L(I(-1), I(0))
+		return -1, 0, 0
 	}
-	resp := r.resp
-	defer resp.Body.Close()
-	buf := make([]byte, 7)
-	n := 0
-	if resp.StatusCode == 200 {
-		n, _ = io.ReadFull(resp.Body, buf[:3])
-		if kind != 0 {
-			m, _ := io.ReadFull(resp.Body, buf[3:])
-			n += m
+	switch r.kind {
+	case 1, 3:
+		if i := bytes.Index(r.body, []byte("C11SRC")); i >= 0 && i+6 < len(r.body) {
+			src = int64(r.body[i+6] - 'A')
+		}
+	case 2:
+		if m := regexp.MustCompile(`/streams(/[^\s?]*)/\d+\.ts`).FindSubmatch(r.body); m != nil {
+			for i, p := range w.watch {
+				if p == string(m[1]) {
+					src = int64(i + 1)
+				}
+			}
 		}
 	}
-	head := string(buf[:n])
-	mediaSeen := false
-	switch kind {
-	case 0:
-		mediaSeen = head == "FLV"
-	case 1:
-		mediaSeen = head == "#EXTM3U"
-	default:
-		mediaSeen = n > 0 && buf[0] == 0x47
-	}
-	return L(I(int64(resp.StatusCode)), Bo(mediaSeen))
+	return r.status, r.kind, src
+}
+
+func (w *world) httpGet(u string, kind int64, hdr http.Header) Val {
+	status, got, src := w.httpFetch(u, hdr)
+	return L(I(int64(status)), Bo(got == kind+1), I(src))
 }
 
 // segmentNo: the k-th sequence number the stream's playlist lists (k < 3), else k itself (no such segment)
